@@ -31,7 +31,7 @@ VARIABLES def, place, steps, hist
 vars == <<def, place, steps, hist>>
 
 (* place: how/where the definition is written - never part of Canon *)
-Place0 == [file |-> "root", comments |-> 0, blanks |-> 0, unrelated |-> 0, hexid |-> FALSE, imporder |-> 0, proc |-> 0, structbody |-> 0]
+Place0 == [file |-> "root", comments |-> 0, blanks |-> 0, unrelated |-> 0, hexid |-> FALSE, imporder |-> 0, proc |-> 0, structbody |-> 0, keyorder |-> 0]
 Canon(d) == <<d.name, d.id, d.fields>>
 
 FieldNames(d) == {d.fields[i][1] : i \in DOMAIN d.fields}
@@ -65,9 +65,10 @@ HexId        == Noise("HexId", [place EXCEPT !.hexid = ~@])
 ReorderImp   == Noise("ReorderImports", [place EXCEPT !.imporder = 1 - @])
 Recompile    == Noise("RecompileOtherProcess", [place EXCEPT !.proc = @ + 1])
 EditStruct   == Noise("EditUsedStruct", [place EXCEPT !.structbody = 1 - @])
+KeyOrder     == Noise("AddKeyOrder", [place EXCEPT !.keyorder = 1 - @])      \* `fields:` written before `id:` inside the definition
 
 EditStep == Rename \/ ChangeId \/ RenameField \/ RetypeField \/ InsertField \/ DeleteField \/ SwapFields
-NoiseStep == AddComment \/ AddBlank \/ AddUnrelated \/ Move \/ HexId \/ ReorderImp \/ Recompile \/ EditStruct
+NoiseStep == AddComment \/ AddBlank \/ AddUnrelated \/ Move \/ HexId \/ ReorderImp \/ Recompile \/ EditStruct \/ KeyOrder
 Next == EditStep \/ NoiseStep
 
 Init == /\ def \in {[name |-> "MSGA", id |-> 1010, fields |-> fs] :
